@@ -84,20 +84,24 @@ def hexahedron(
         if colored:
             col = hexa.faces.create_attribute("color", float, 3)
             RED,GREEN,BLUE = Vec(1.,0.,0), Vec(0.,1.,0.), Vec(0.,0.,1.)
-            col[0] = RED
-            col[1] = RED
-            col[10] = RED
-            col[11] = RED
+            if triangulate:
+                col[0] = RED
+                col[1] = RED
+                col[10] = RED
+                col[11] = RED
 
-            col[2] = GREEN
-            col[3] = GREEN
-            col[6] = GREEN
-            col[7] = GREEN
-            
-            col[4] = BLUE
-            col[5] = BLUE
-            col[8] = BLUE
-            col[9] = BLUE
+                col[2] = GREEN
+                col[3] = GREEN
+                col[6] = GREEN
+                col[7] = GREEN
+                
+                col[4] = BLUE
+                col[5] = BLUE
+                col[8] = BLUE
+                col[9] = BLUE
+            else: # one color per quad, same colors as the two triangles it would be split into
+                for iF,c in enumerate((RED, GREEN, BLUE, GREEN, BLUE, RED)):
+                    col[iF] = c
     return _instanciate_raw_mesh_data(hexa)
 
 def axis_aligned_cube(colored: bool = False, triangulate: bool = False) -> SurfaceMesh:
